@@ -279,6 +279,12 @@ func (x *stepCtx) assertC04() {
 	if isTerminal(int(e.c.smeState)) {
 		zzvrt.Assert(!e.c.handshakeTimerRunning, "C04.timer-armed-after-terminal")
 		zzvrt.Assert(e.w.closed, "C04.terminal-transport-open")
+		if !x.preClosed {
+			// the connection itself has to close its transport (a transport that died under it still needs Close
+			// to release it) and to report its end, exactly once
+			zzvrt.Assert(e.log.count(evCloseData) >= 1, "C04.terminal-without-closing-the-transport")
+			zzvrt.Assert(e.log.count(evClosed) == 1, "C04.terminal-end-not-reported-once")
+		}
 	}
 }
 
@@ -305,6 +311,11 @@ func (x *stepCtx) assertC01() {
 			zzvrt.Assert(granted, "C01.deliver-without-grant")
 			zzvrt.Assert(x.preReader || e.log.count(evSetup) > 0, "C01.deliver-before-completion")
 		}
+	}
+	// cancelling aborts a handshake that waits for trust (locally pending or waiting for the peer's decision)
+	if x.event == evtAbort && (x.pre == 8 || x.pre == 11) && !x.preClosed {
+		post := int(e.c.smeState)
+		zzvrt.Assert(post == 15 || post == 39, "C10.cancel-does-not-abort-the-waiting-handshake")
 	}
 	// approval is only honoured for a pending request
 	if x.event == evtApprove && x.pre != 11 {
@@ -508,6 +519,60 @@ func H_C06_Send() {
 	zzvrt.Assert(writes <= n, "C06.send-duplicated")
 	if wasClosed {
 		zzvrt.Assert(writes == 0, "C06.send-on-closed-transport")
+	}
+	zzvrt.Cover("step.end")
+}
+
+// H_C06_Seq: three consecutive frames on a connection that is waiting in the access-methods phase (no reader yet):
+// every datagram is held back with the content it had when it arrived, in arrival order, and the completing frame
+// flushes exactly those contents. (A sequence, not a single step: contents captured at arrival are compared later,
+// which exposes buffered slices that alias a reused decode buffer.)
+func H_C06_Seq() {
+	e := newEnv(symRole(), "")
+	e.info.free = true
+	c := e.c
+	c.smeState = model.SmeAccessMethodsRequest
+	e.info.granted = true
+	var want []string
+	for i := 0; i < 3; i++ {
+		m := zzvrt.Bytes("msg")
+		zzvrt.Assume(len(m) >= 2)
+		hadReader := c.dataReader != nil
+		before := e.log.count(evDeliver)
+		c.HandleIncomingWebsocketMessage(m)
+		if c.hasSpineDatagram(m) {
+			p, st := dataPayload(m)
+			if st == 2 {
+				if hadReader {
+					zzvrt.Assert(e.log.count(evDeliver) == before+1, "C06.seq-data-not-delivered-once")
+				} else {
+					want = append(want, p)
+				}
+			}
+		}
+		if c.dataReader == nil {
+			// still buffering: the buffer holds exactly the arrived payloads with their original content
+			zzvrt.Assert(len(c.spineBuffer) == len(want), "C06.seq-buffer-length")
+			for k := range want {
+				if k < len(c.spineBuffer) {
+					zzvrt.Assert(string(c.spineBuffer[k]) == want[k], "C06.seq-buffered-content-changed")
+				}
+			}
+		} else if !hadReader {
+			// this frame completed the handshake: the flush delivered the held-back payloads, in order, unchanged
+			var got []string
+			for _, ev := range e.log.Ev {
+				if ev.Kind == evDeliver {
+					got = append(got, string(ev.B))
+				}
+			}
+			zzvrt.Assert(len(got) == len(want), "C06.seq-flush-count")
+			for k := range want {
+				if k < len(got) {
+					zzvrt.Assert(got[k] == want[k], "C06.seq-flush-content")
+				}
+			}
+		}
 	}
 	zzvrt.Cover("step.end")
 }
